@@ -1,4 +1,5 @@
-/* C12 / ini_buf_gen: the capacity test compares each line with the whole buf_size, not with the
+/* (FIXED in /repo by 39a3f75 while this harness was being built - kept as a regression reproducer; on 959b358 it exits 1.)
+ * C12 / ini_buf_gen: the capacity test compares each line with the whole buf_size, not with the
  * space that is left, so a buffer smaller than ini_buf_calc_size() is overrun (rc = 0).
  *   gcc -D_GNU_SOURCE -DHAVE_REALLOCARRAY -DHAVE_MEMMEM -DHAVE_MEMRCHR -DHAVE_STRNCASECMP -DHAVE_EXPLICIT_BZERO -DHAVE_PIPE2 -DHAVE_ACCEPT4 \
  *       -I/repo/include -o /tmp/r ini_buf_gen_capacity.c /repo/src/utils/ini.c /repo/src/utils/buf_str.c && /tmp/r   (exit 1 = defect present) */
